@@ -21,7 +21,7 @@ RULE = ('A case is a history of <= 30 (thorough: 60) operations [op, int args...
         'pattern / volume curve), add_pipe/pump(HEAD curve | POWER, optional speed pattern)/valve(PRV..GPV), '
         'add_pattern/curve/source/control(Control | Rule over node and link conditions), remove_node/link '
         '(plain | with_control | force), remove_pattern/curve/source/control, set start/end node, '
-        'speed_pattern_name, head_pattern_name, vol_curve_name, pump_curve_name, headloss_curve_name, add_demand. '
+        'speed_pattern_name, head_pattern_name, vol_curve_name, pump_curve_name, headloss_curve_name, add_demand, the pattern of a demand entry through TimeSeries.pattern_name. '
         'Indices are taken modulo the number of existing candidates; names are prefix + smallest free number, so '
         'names are re-used after removals. Enumerated part: 60 hand-built histories covering each element kind x '
         'reference kind x (remove in use / remove user / remove unused). After every executed step all views are '
@@ -376,7 +376,7 @@ def resolve(op, ref, wn):
         p = _opt(pats, a[0])
         return Step('add_junction' + (':pat' if p else ''),
                     lambda: wn.add_junction(n, base_demand=0.01, demand_pattern=p, elevation=10.0),
-                    lambda: ref.nodes.__setitem__(n, {'kind': 'Junction', 'pats': [p] if p else [], 'head_pat': None,
+                    lambda: ref.nodes.__setitem__(n, {'kind': 'Junction', 'pats': [p], 'head_pat': None,
                                                       'vol_curve': None}),
                     creates_ref=bool(p))
     if name == 'add_tank':
@@ -518,7 +518,7 @@ def resolve(op, ref, wn):
         if why:
             return Step('remove_node:refuse(%s)%s' % (why, suffix), call, lambda: None, refuse=True, removal=True,
                         tags=['refused:node_used_by_' + why] + mtag)
-        feat = ':pat' if (d['pats'] or d['head_pat']) else (':curve' if d['vol_curve'] else '')
+        feat = ':pat' if (any(d['pats']) or d['head_pat']) else (':curve' if d['vol_curve'] else '')
 
         def app():
             if mode == 1:
@@ -555,7 +555,14 @@ def resolve(op, ref, wn):
         if n is None:
             return None
         if ref.pattern_users(n):
-            return Step('remove_pattern:refuse', lambda: wn.remove_pattern(n), lambda: None, refuse=True,
+            # root-cause qualifier: every use of the pattern is a demand entry that got it through the
+            # TimeSeries.pattern_name setter (the setter does not tell the pattern registry: recorded open finding)
+            rt = getattr(ref, 'retargeted', set())
+            only_rt = all(u in ref.nodes and ref.nodes[u]['head_pat'] != n and
+                          all((u, k) in rt for k, q in enumerate(ref.nodes[u]['pats']) if q == n)
+                          for u in ref.pattern_users(n))
+            return Step('remove_pattern:refuse' + ('(used_only_through_demand_pattern_setter)' if only_rt else ''),
+                        lambda: wn.remove_pattern(n), lambda: None, refuse=True,
                         removal=True, tags=['refused:pattern_in_use'])
         return Step('remove_pattern', lambda: wn.remove_pattern(n), lambda: ref.patterns.__delitem__(n), removal=True)
     if name == 'remove_curve':
@@ -657,7 +664,19 @@ def resolve(op, ref, wn):
         p = _opt(pats, a[1])
         return Step('add_demand' + (':pat' if p else ''),
                     lambda: wn.get_node(n).add_demand(0.002, p, 'extra'),
-                    lambda: ref.nodes[n]['pats'].append(p) if p else None, creates_ref=bool(p))
+                    lambda: ref.nodes[n]['pats'].append(p), creates_ref=bool(p))
+    if name == 'set_demand_pattern':
+        # the pattern of one demand entry is re-assigned through the documented setter TimeSeries.pattern_name
+        n = _pick(ref.nodes_of('Junction'), a[0])
+        if n is None or not ref.nodes[n]['pats']:
+            return None
+        k = a[1] % len(ref.nodes[n]['pats'])
+        p = _pick(pats, a[2])
+        if p is None:
+            return None
+        return Step('set_demand_pattern',
+                    lambda: setattr(wn.get_node(n).demand_timeseries_list[k], 'pattern_name', p),
+                    lambda: _retarget(ref, n, k, p), creates_ref=True)
     raise ValueError('unknown op %r' % (op,))
 
 
@@ -767,6 +786,13 @@ PRELUDE = [['add_pattern', 0], ['add_pattern', 1], ['add_curve', 0], ['add_curve
            ['add_reservoir', 2], ['add_pipe', 0, 0, 0], ['add_pipe', 1, 1, 1], ['add_pipe', 4, 0, 0],
            ['add_pump', 4, 0, 1, 0, 1], ['add_valve', 1, 1, 0, 0], ['add_valve', 2, 0, 5, 0]]
 
+def _retarget(ref, n, k, p):
+    ref.nodes[n]['pats'][k] = p
+    if not hasattr(ref, 'retargeted'):
+        ref.retargeted = set()
+    ref.retargeted.add((n, k))
+
+
 # (name, number of int args, weight)
 OPS = [
     ('add_junction', 1, 3), ('add_pattern', 1, 2), ('add_curve', 1, 3), ('add_tank', 1, 2), ('add_reservoir', 1, 2),
@@ -775,6 +801,7 @@ OPS = [
     ('remove_source', 1, 2), ('remove_control', 1, 1),
     ('set_start', 2, 2), ('set_end', 2, 2), ('reverse_link', 1, 2), ('set_speed_pattern', 2, 2), ('set_head_pattern', 2, 2),
     ('set_vol_curve', 2, 2), ('set_pump_curve', 2, 1), ('set_headloss_curve', 2, 1), ('add_demand', 2, 2),
+    ('set_demand_pattern', 3, 2),
 ]
 
 
